@@ -121,6 +121,10 @@ def fixed_cases(tier):
         out.append({"prog": {"src": s, "mode": "exec", "optimize": 0, "min_version": 7},
                     "steps": [["code_roundtrip", None], ["json_roundtrip", None], ["normalize", None], ["code_roundtrip", None],
                               ["renormalize_twice", None], ["json_roundtrip", None]]})
+    from checks import c08
+    for s in c08.NAN_PROGRAMS + ["x = 1e999j - 1e999j\n", "x = (0.0, -0.0, 1e999 - 1e999)\ny = 1e999 * 0\n"]:
+        out.append({"prog": {"src": s, "mode": "exec", "optimize": 0, "min_version": 7},
+                    "steps": [["json_roundtrip", None], ["normalize", None], ["code_roundtrip", None], ["json_roundtrip", None]]})
     for s in gen_source.jump_cascade_sources() + gen_source.many_cells_sources():
         out.append({"prog": {"src": s, "mode": "exec", "optimize": 0, "min_version": 7},
                     "steps": [["normalize", None], ["code_roundtrip", None], ["code_roundtrip", None]]})
